@@ -1,9 +1,9 @@
 package main
 
 import (
-	"go/token"
 	"encoding/json"
 	"fmt"
+	"go/token"
 	"os"
 	"path/filepath"
 	"sort"
@@ -567,6 +567,14 @@ func checkEnums(p *Program, r *Report, pl *Policy) {
 		r.Undec("C04.R4", "template.sanitizersForAttributeValue", "", err.Error())
 		return
 	}
+	var joinFlags []string
+	if jf := p.Func("template", "join"); jf != nil {
+		for _, path := range contextFlagStores(jf, 0, "value") {
+			if strings.HasPrefix(path, "attr.") && !strings.Contains(path[5:], ".") {
+				joinFlags = append(joinFlags, path[5:])
+			}
+		}
+	}
 	seen := map[*ssa.BasicBlock]bool{}
 	for _, alt := range ci.Alts {
 		if seen[alt.Ret.Block()] {
@@ -592,6 +600,24 @@ func checkEnums(p *Program, r *Report, pl *Policy) {
 			}, 0)
 		}
 		r.Check(ok, "C04.R4", fmt.Sprintf("template.sanitizersForAttributeValue#partial-enum-guard@%s", alt.Names()), p.Pos(alt.Ret.Pos()), "reached only when the context is not an enum or the static value is empty", "a chain is returned for an enum context although a static partial value precedes the action")
+		// join() records branches that disagree on the static value in flag fields and keeps the value of
+		// one branch (possibly the empty one): the refusal has to consult those flags too
+		for _, flag := range joinFlags {
+			g := func(a Atom) bool {
+				if a.E.Op == "call" && a.E.Fn == f && !a.Pol {
+					return true
+				}
+				return a.E.Op == "field" && a.E.Name == flag && !a.Pol
+			}
+			ok := allPathsGuard(ci.CE.pv, alt.Ret.Block(), g, 0)
+			for _, vb := range alt.Via {
+				if ok {
+					break
+				}
+				ok = allPathsGuard(ci.CE.pv, vb, g, 0)
+			}
+			r.Check(ok, "C04.R4", fmt.Sprintf("template.sanitizersForAttributeValue#partial-enum-guard-%s@%s", flag, alt.Names()), p.Pos(alt.Ret.Pos()), "reached only when the context is not an enum or conditional branches agree on the static value", "a chain is returned for an enum context although conditional branches wrote different static values before the action (join() keeps one of them, possibly the empty one, and sets attr."+flag+"): "+"`<a target=\"{{if .C}}x{{end}}{{.X}}\">` passes the empty-value test")
+		}
 	}
 }
 
